@@ -10,7 +10,7 @@ def run(ctx):
         trace, summ = ctx["replay"], {"claims": 0, "facts": 0, "kinds": {}, "samples": [], "suites": [], "cross_provider_recomputations": 0, "cross_provider_mismatches": []}
     else:
         trace = os.path.join(wd, f"derivations-{tier}.ndjson")
-        rc, out, err = vlib.harness(["kstrace", "--out", trace, "--seed", seed, "--scenarios", 20 if tier == "quick" else 1500], timeout=3000)
+        rc, out, err = vlib.harness(["kstrace", "--out", trace, "--seed", seed, "--scenarios", 20 if tier == "quick" else 500], timeout=3000)
         summ = vlib.last_json(out)
     rows = sum(1 for _ in open(trace))
     r = vlib.tlc("KsTrace", workers=1, timeout=3000, env={"TRACE": trace}, name="kstrace", xmx="12g")
